@@ -23,7 +23,7 @@ import (
 	"golang.org/x/tools/go/packages"
 )
 
-const simPath = "golang.org/x/perf/internal/verifsim"
+const simPath = "verif.local/sim"
 
 type inst struct {
 	fset    *token.FileSet
@@ -325,6 +325,24 @@ func (in *inst) rewriteList(list []ast.Stmt, inGo bool) []ast.Stmt {
 }
 
 func (in *inst) file(f *ast.File) {
+	ast.Inspect(f, func(n ast.Node) bool {
+		c, ok := n.(*ast.CallExpr)
+		if !ok {
+			return true
+		}
+		if sel, ok := c.Fun.(*ast.SelectorExpr); ok && sel.Sel.Name == "GOMAXPROCS" {
+			if id, ok := sel.X.(*ast.Ident); ok {
+				if pn, ok := in.info.Uses[id].(*types.PkgName); ok && pn.Imported().Path() == "runtime" {
+					c.Args = []ast.Expr{&ast.CallExpr{Fun: &ast.SelectorExpr{X: id, Sel: sel.Sel}, Args: c.Args}, c.Args[0]}
+					c.Fun = &ast.SelectorExpr{X: ast.NewIdent("verifsim"), Sel: ast.NewIdent("GOMAXPROCS")}
+					in.stats["gomaxprocs"]++
+					in.changed = true
+					return false
+				}
+			}
+		}
+		return true
+	})
 	// which lists are lexically inside a go literal; which functions contain go statements
 	type frame struct {
 		n    ast.Node
@@ -385,7 +403,7 @@ func main() {
 	for _, p := range flag.Args() {
 		patterns = append(patterns, "./"+p)
 	}
-	cfg := &packages.Config{Mode: packages.NeedName | packages.NeedFiles | packages.NeedSyntax | packages.NeedTypes | packages.NeedTypesInfo | packages.NeedImports | packages.NeedDeps,
+	cfg := &packages.Config{Mode: packages.NeedName | packages.NeedFiles | packages.NeedCompiledGoFiles | packages.NeedSyntax | packages.NeedTypes | packages.NeedTypesInfo | packages.NeedImports | packages.NeedDeps,
 		Dir: *repo, Env: append(os.Environ(), "GOFLAGS=-mod=mod", "GOPROXY=off", "GOSUMDB=off")}
 	pkgs, err := packages.Load(cfg, patterns...)
 	if err != nil {
@@ -398,6 +416,7 @@ func main() {
 	replace := map[string]string{}
 	stats := map[string]int{}
 	unins := []string{}
+	resetVars := []string{}
 	for _, p := range pkgs {
 		for i, f := range p.Syntax {
 			_ = i
@@ -425,6 +444,60 @@ func main() {
 			replace[name] = dst
 			stats["files"]++
 		}
+		// process-wide caches: generate a reset hook so that every simulated run starts cold
+		var resets []string
+		for _, f := range p.Syntax {
+			if strings.HasSuffix(p.Fset.Position(f.Package).Filename, "_test.go") {
+				continue
+			}
+			for _, d := range f.Decls {
+				gd, ok := d.(*ast.GenDecl)
+				if !ok || gd.Tok != token.VAR {
+					continue
+				}
+				for _, sp := range gd.Specs {
+					vs := sp.(*ast.ValueSpec)
+					for i, n := range vs.Names {
+						obj, _ := p.TypesInfo.Defs[n].(*types.Var)
+						if obj == nil || n.Name == "_" {
+							continue
+						}
+						if named, ok := obj.Type().(*types.Named); ok && named.Obj().Pkg() != nil && named.Obj().Pkg().Path() == "sync" && named.Obj().Name() == "Map" {
+							resets = append(resets, n.Name+".Clear()")
+							continue
+						}
+						if _, isMap := obj.Type().Underlying().(*types.Map); isMap && i < len(vs.Values) {
+							switch v := vs.Values[i].(type) {
+							case *ast.CallExpr:
+								if id, ok := v.Fun.(*ast.Ident); ok && id.Name == "make" {
+									resets = append(resets, "clear("+n.Name+")")
+								}
+							case *ast.CompositeLit:
+								if len(v.Elts) == 0 {
+									resets = append(resets, "clear("+n.Name+")")
+								}
+							}
+						}
+					}
+				}
+			}
+		}
+		if len(resets) > 0 && len(p.GoFiles) > 0 {
+			dir := filepath.Dir(p.GoFiles[0])
+			src := "//go:build verif\n\npackage " + p.Name + "\n\nimport verifsim \"" + simPath + "\"\n\nfunc init() {\n\tverifsim.RegisterReset(func() {\n"
+			for _, r := range resets {
+				src += "\t\t" + r + "\n"
+				resetVars = append(resetVars, p.PkgPath+"."+r)
+			}
+			src += "\t})\n}\n"
+			rel, _ := filepath.Rel(*repo, dir)
+			dst := filepath.Join(*out, strings.ReplaceAll(rel, "/", "__")+"__zz_verifreset.go")
+			if err := os.WriteFile(dst, []byte(src), 0o644); err != nil {
+				fmt.Fprintln(os.Stderr, err)
+				os.Exit(2)
+			}
+			replace[filepath.Join(dir, "zz_verifreset.go")] = dst
+		}
 	}
-	json.NewEncoder(os.Stdout).Encode(map[string]any{"replace": replace, "uninstrumented": unins, "stats": stats})
+	json.NewEncoder(os.Stdout).Encode(map[string]any{"replace": replace, "uninstrumented": unins, "stats": stats, "reset_vars": resetVars})
 }
